@@ -572,6 +572,24 @@ pub struct DBA {
     pub b: B,
     pub a: A,
 }
+/// size order and alignment order of the fields differ (L: 320 bytes aligned to 8, D: 256 bytes aligned
+/// to 256), whatever the `TypeId`s are
+#[derive(hecs::Bundle, hecs::DynamicBundleClone, Clone)]
+pub struct DLD {
+    pub l: L,
+    pub d: D,
+}
+impl StaticBundle for DLD {
+    fn types() -> Vec<usize> {
+        vec![6, 3]
+    }
+    fn make(s: &[u64]) -> Self {
+        DLD { l: L::new(s[0]), d: D::new(s[1]) }
+    }
+    fn serials(&self) -> Vec<(usize, u64)> {
+        vec![(6, self.l.serial()), (3, self.d.serial())]
+    }
+}
 impl StaticBundle for DAB {
     fn types() -> Vec<usize> {
         vec![0, 1]
@@ -650,16 +668,18 @@ macro_rules! with_bundle {
             34 => { type $T = (PB,); $body }
             35 => { type $T = PB; $body }
             36 => { type $T = (A, PB); $body }
+            37 => { type $T = DLD; $body }
+            38 => { type $T = (L, D); $body }
             // out-of-contract: a component type named twice (must be rejected by hecs)
-            37 => { type $T = (A, A); $body }
-            38 => { type $T = (B, A, B); $body }
+            39 => { type $T = (A, A); $body }
+            40 => { type $T = (B, A, B); $body }
             _ => panic!("harness: bad bundle menu index"),
         }
     }};
 }
-pub const NBUNDLES: usize = 37;
+pub const NBUNDLES: usize = 39;
 /// menu entries at and above `NBUNDLES` repeat a type
-pub const NBUNDLES_ALL: usize = 39;
+pub const NBUNDLES_ALL: usize = 41;
 
 /// smaller menu for the removed side of `exchange` (keeps monomorphisation count down)
 #[macro_export]
